@@ -407,7 +407,10 @@ def transpile_structure(
             vyxal.structure.ForLoop,
             vyxal.structure.WhileLoop,
         ):
-            return indent_str("break", indent)
+            # leave the loop's context value balanced
+            return indent_str("ctx.context_values.pop()", indent) + indent_str(
+                "break", indent
+            )
         elif struct.parent_structure == vyxal.structure.FunctionDef:
             return (
                 indent_str("ctx.inputs.pop()", indent)
@@ -419,6 +422,8 @@ def transpile_structure(
                 indent_str("ret = [pop(stack, 1, ctx=ctx)]", indent)
                 + indent_str("ctx.context_values.pop()", indent)
                 + indent_str("ctx.inputs.pop()", indent)
+                + indent_str("ctx.stacks.pop()", indent)
+                + indent_str("ctx.function_stack.pop()", indent)
                 + indent_str("return ret", indent)
             )
         else:
@@ -430,7 +435,9 @@ def transpile_structure(
             vyxal.structure.ForLoop,
             vyxal.structure.WhileLoop,
         ):
-            return indent_str("continue", indent)
+            return indent_str("ctx.context_values.pop()", indent) + indent_str(
+                "continue", indent
+            )
         elif struct.parent_structure == vyxal.structure.FunctionDef:
             return indent_str(
                 "stack.append(this(stack, this, ctx=ctx))", indent
